@@ -102,6 +102,53 @@ def run(tier, seed, replay=None):
         if cdt == torch.float32: tol = max(tol, 1e-6)            # single precision cannot certify less
         if res > CONST * tol + 1e-12:
             V.fail("%s: q*y differs from the numerator by more than %g*tol" % (form, CONST), dict(desc, rel_residual=res, tol=tol, ranks=[int(r) for r in q.R]))
+    # ---- exact correspondence of the interface recursions of torchtt/_division.py (the divisor's cores act as a DIAGONAL operator: einsum
+    # 'lsr,lML,sMS,rMR') with Model/Local.v on complex integer data - the model conjugates the left cores (the Hermitian projection): this is
+    # where a transposed instead of a conjugated projection shows exactly
+    import torchtt._division as DV
+    rng_l = random.Random(seed + 59)
+    lcases, lmeta = [], []
+    def ic(shape): return (np.array([rng_l.randint(-2, 2) for _ in range(int(np.prod(shape)))]) + 1j * np.array([rng_l.randint(-1, 1) for _ in range(int(np.prod(shape)))])).reshape(shape)
+    def zil(a_): return "[" + ";".join("(%d,%d)" % (int(v.real), int(v.imag)) for v in np.asarray(a_).reshape(-1)) + "]%Z"
+    def o3(a_): return "(%d%%nat,%d%%nat,%d%%nat,%s)" % (a_.shape[0], a_.shape[1], a_.shape[2], zil(a_))
+    def o4d(y_):            # the diagonal operator core of a divisor core y (s, M, S): c(s, m, n, S) = y(s, m, S) if m = n
+        c_ = np.zeros((y_.shape[0], y_.shape[1], y_.shape[1], y_.shape[2]), dtype=np.complex128)
+        for m_ in range(y_.shape[1]): c_[:, m_, m_, :] = y_[:, m_, :]
+        return "(%d%%nat,%d%%nat,%d%%nat,%d%%nat,%s)" % (c_.shape[0], c_.shape[1], c_.shape[2], c_.shape[3], zil(c_))
+    Tc = lambda a_: torch.tensor(a_, dtype=torch.complex128)
+    for j in range(24 if tier == "quick" else 240):
+        ra, rb, rs, rS, la, lb = [rng_l.choice([1, 2, 3]) for _ in range(6)]; m_ = rng_l.choice([1, 2, 3])
+        kind_ = ["phi_fwd", "phi_bck", "phib_fwd", "phib_bck"][j % 4]
+        try:
+            if kind_ in ("phi_fwd", "phi_bck"):
+                a_, y_, b_ = ic((la, m_, lb)), ic((rs, m_, rS)), ic((ra, m_, rb))
+                if kind_ == "phi_fwd":
+                    P_ = ic((la, rs, ra)); out = DV.compute_phi_fwd_A(Tc(P_), Tc(a_), Tc(y_), Tc(b_))
+                    lcases.append("[check_phi_fwd (R:=ZI) %d %d %s %s %s %s %s]" % (rs, ra, zil(P_), o3(a_), o4d(y_), o3(b_), zil(out.numpy())))
+                else:
+                    P_ = ic((lb, rS, rb)); out = DV.compute_phi_bck_A(Tc(P_), Tc(a_), Tc(y_), Tc(b_))
+                    lcases.append("[check_phi_bck (R:=ZI) %d %d %s %s %s %s %s]" % (rS, rb, zil(P_), o3(a_), o4d(y_), o3(b_), zil(out.numpy())))
+            else:
+                bc_, x_ = ic((rs, m_, rS)), ic((ra, m_, rb))
+                if kind_ == "phib_fwd":
+                    P_ = ic((rs, ra)); out = DV.compute_phi_fwd_rhs(Tc(P_), Tc(bc_), Tc(x_))
+                    lcases.append("[check_phib_fwd (R:=ZI) %d %s %s %s %s]" % (ra, zil(P_), o3(bc_), o3(x_), zil(out.numpy())))
+                else:
+                    P_ = ic((rS, rb)); out = DV.compute_phi_bck_rhs(Tc(P_), Tc(bc_), Tc(x_))
+                    lcases.append("[check_phib_bck (R:=ZI) %d %s %s %s %s]" % (rb, zil(P_), o3(bc_), o3(x_), zil(out.numpy())))
+            lmeta.append({"division_interface": kind_, "case": len(lcases) - 1})
+        except Exception as ex:
+            V.fail("division interface correspondence: %s raises %s" % (kind_, type(ex).__name__), {"kind": kind_, "exc": str(ex)[:200]}, failing_input=False)
+    n_local = 0
+    if ok_make and lcases:
+        try:
+            codes = coqrun.eval_nat_lists("C13_local", "From TT Require Import RingSig Instances Core Local.", "", lcases, shard=60)
+            for dsc, c in zip(lmeta, codes):
+                if c != [0]: V.fail("correspondence(model/impl): %s of torchtt/_division.py differs from Model/Local.v (complex data)" % dsc["division_interface"], dict(dsc, model_code=c, expr=lcases[dsc["case"]][:1500]))
+                else: n_local += 1
+        except Exception as ex:
+            V.fail("division interface correspondence: the model could not be evaluated", {"exc": str(ex)[:300]}, failing_input=False)
+    dist["division interface recursions exact (complex)"] = n_local
     nviol = V.finish()
     cov = proofcheck.coverage(PID, obl, evaluations=n, distinct_nontrivial=len(dist),
         rule=("x / y, scalar / y, elementwise_divide(x, y, ...) and x / scalar for y = 1 + z*z (entries in [1,2]) of order 2..5, mode sizes 1..10, ranks 1..4, tolerances 1e-10..1e-4, "
